@@ -381,3 +381,47 @@ Proof.
           (proj2 (S_ofZ' 200 ltac:(lia))).
   repeat split; lra.
 Qed.
+
+(* ---------- the computed vertices are again bounded: |c| <= 14 * 2^E <= 2^(E+4) ---------- *)
+
+Lemma coordU14 E x : fin x -> Rabs (B2R x) <= 14 * bp E -> coord_ok (E + 4) x.
+Proof.
+  intros F B. split; [exact F|]. rewrite bpow_plus. replace (bp 4) with 16 by (cbn; lra).
+  pose proof (bpow_gt_0 radix2 E). lra.
+Qed.
+
+Lemma catmull_subpath_ok E v1 v2 v3 v4 :
+  (0 <= E <= 100)%Z -> pointU E 1 v1 -> pointU E 1 v2 -> pointU E 1 v3 -> pointU E 3 v4 ->
+  Forall (point_ok (E + 4)) (catmull_subpath v1 v2 v3 v4).
+Proof.
+  intros HE [X1 Y1] [X2 Y2] [X3 Y3] [X4 Y4]. unfold catmull_subpath.
+  change (Z.to_nat catmull_detail) with 50%nat.
+  apply Forall_flat_map. rewrite Forall_forall. intros k Hk. apply in_seq in Hk.
+  assert (Hk50 : (k < 50)%nat) by lia.
+  destruct (catmull_param_a k Hk50) as (Fa & Ra & _). destruct (catmull_param_b k Hk50) as (Fb & Rb & _).
+  assert (Q0 : 0 <= 0 <= 1) by lra.
+  repeat (apply Forall_cons || apply Forall_nil); split; cbn [px py]; apply coordU14.
+  - exact (proj1 (catmull_eval_ieee E HE _ _ _ _ _ X1 X2 X3 X4 Fa Ra)).
+  - exact (catmull_eval_bound E HE _ _ _ _ _ X1 X2 X3 X4 Fa Ra).
+  - exact (proj1 (catmull_eval_ieee E HE _ _ _ _ _ Y1 Y2 Y3 Y4 Fa Ra)).
+  - exact (catmull_eval_bound E HE _ _ _ _ _ Y1 Y2 Y3 Y4 Fa Ra).
+  - exact (proj1 (catmull_eval_ieee E HE _ _ _ _ _ X1 X2 X3 X4 Fb Rb)).
+  - exact (catmull_eval_bound E HE _ _ _ _ _ X1 X2 X3 X4 Fb Rb).
+  - exact (proj1 (catmull_eval_ieee E HE _ _ _ _ _ Y1 Y2 Y3 Y4 Fb Rb)).
+  - exact (catmull_eval_bound E HE _ _ _ _ _ Y1 Y2 Y3 Y4 Fb Rb).
+Qed.
+
+Theorem approximate_catmull_ok E points cat :
+  (0 <= E <= 100)%Z -> Forall (point_ok E) points -> approximate_catmull points = Done cat ->
+  Forall (point_ok (E + 4)) cat.
+Proof.
+  intros HE Hok Hrun.
+  rewrite model_approximate_catmull in Hrun. unfold approximate_catmull_g in Hrun.
+  destruct points as [|p0 pts]; [discriminate|]. cbn [map] in Hrun. injection Hrun as <-.
+  rewrite map_flat_map. apply Forall_flat_map.
+  pose proof (spans_ok E (p0 :: pts) HE Hok) as Hs. cbn [map] in Hs.
+  eapply Forall_impl; [|exact Hs]. intros sp Hsp. destruct sp as [[[v1 v2] v3] v4].
+  destruct Hsp as (P1 & P2 & P3 & P4).
+  change (map pos_of2 (span_path f32_ops S.div S.one catmull_detail_f of_nat32 (v1, v2, v3, v4))) with (span_path32 (v1, v2, v3, v4)).
+  rewrite span_path32_subpath. apply catmull_subpath_ok; assumption.
+Qed.
